@@ -570,7 +570,7 @@ pub fn property() -> Property {
             PropSub {
                 name: "streams",
                 strategy: case_strategy,
-                cases: |t| t.pick(250_000, 6_000_000),
+                cases: |t| t.pick(1_500_000, 10_000_000),
                 run: run_case,
                 floors: &[("notify-while-partial-header", 0.20), ("multi-query", 0.25), ("model-data-response", 0.3)],
             }
